@@ -130,11 +130,11 @@ func Assert(cond bool, id string) {
 	}
 }
 
-func Unreachable(id string) { Assert(false, id) }
-func Stop()                 { panic(stopped{}) }
-func NoPanic(id string)     { cur.NoPanicID = id }
-func SetUnwind(n int)       {}
-func SetMaxSteps(n int)     {}
+func Unreachable(id string)  { Assert(false, id) }
+func Stop()                  { panic(stopped{}) }
+func NoPanic(id string)      { cur.NoPanicID = id }
+func SetUnwind(n int)        {}
+func SetMaxSteps(n int)      {}
 func OpaqueNonlinear(b bool) {}
 
 func render(v reflect.Value) string {
